@@ -15,6 +15,11 @@ CHECKS = {
     technique="TLA+ specs of copyLoop (Relay.tla) and the termination monitor (TermMon.tla) model-checked with TLC incl. liveness; TLC-generated environment scripts replayed on the real copyLoop/termMonitor through an overlay in-package driver; recorded traces validated by TLC with the monitor's unlogged steps inferred",
     text="TLC checks exhaustively (small constants, safety and liveness under weak fairness) that the relay design forwards prefixes, flushes a finished side before closing the healthy one, closes both and returns, and that the shutdown monitor's count matches and a graceful shutdown completes exactly when no handler is active (the pinned code's deviation is shown to violate it). Every environment history of the bounded relay model and all handler/signal orders up to a bound are executed on the real code; 'blocked for good' is a state predicate (wire park state / goroutine in select with no pending sender), and TLC validates every recorded trace against the specs.",
     note="Trusted: TLC, harness wire connections, runtime.Stack based stuck predicate, the overlay driver constructing the monitor via newTermMonitor() and offering signals on sigChan. Go scheduler interleavings between harness steps are sampled (settled and racy variants), not enumerated."),
+ "C18": dict(
+    category="fault_enumeration", design_ref="DESIGN.md section 5, C18",
+    technique="TLA+ spec of the state directory under kill-at-every-FS-operation (StateDir.tla) model-checked with TLC; crash states enumerated from the real strace of real starts, materialised and restarted on the real code; histories validated by TLC against the property-level trace spec",
+    text="TLC proves the design (write-to-temp + rename) keeps a persisted identity under a kill after every file-system operation incl. torn writes, and shows the truncating rewrite of the pinned code loses it. On the real code, every start of every history (plain / IAT override / explicit identity, up to 3 starts) is run under strace; for every prefix of its mutating system calls and torn variants of each write the directory is materialised and the real start is run again (twice); bridge-line round trips (cert and legacy form, bridge-line file) are checked on every completed start; the ScrambleSuit ticket-store update paths get the same treatment. TLC validates every history against the property.",
+    note="Trusted: strace's view of the system calls, kill (not power-loss) semantics as the property states, the overlay accessors reading the factory's identity, the reference ScrambleSuit server used to make the client store/consume tickets."),
 }
 NOT_APPLICABLE = {
  "C07": "Elligator2 is pure field arithmetic over GF(2^255-19) with no state, schedule or history; TLC (32-bit integers, no bignums) could only restate the map over a toy field that nothing can bind to the fixed-field code, so a TLA+ model would be a specification nothing binds to the code (DESIGN.md section 6).",
